@@ -99,6 +99,27 @@ func main() {
 		c := NewCtx(repoDir())
 		c.Load()
 		c.dumpSelects()
+	case "dead":
+		c := NewCtx(repoDir())
+		g := c.CG()
+		n := 0
+		for _, fn := range sortedFuncs(g.funcs) {
+			if fn.Pkg != nil && strings.HasPrefix(fn.Pkg.Pkg.Path(), modPath) && !g.live[fn] && fn.Synthetic == "" {
+				fmt.Println(ssaName(fn))
+				n++
+			}
+		}
+		fmt.Println("dead:", n, c.cgStats())
+	case "cfg":
+		c := NewCtx(repoDir())
+		c.Load()
+		p, fd := c.FuncDecl(os.Args[2], os.Args[3])
+		if fd == nil {
+			fmt.Println("not found")
+			os.Exit(1)
+		}
+		g := c.cfgOf(&FuncInfo{Pkg: p, Decl: fd}, fd.Body)
+		fmt.Println(g.g.Format(c.Fset))
 	case "manifest":
 		os.Exit(cmdManifest())
 	case "selftest":
